@@ -54,28 +54,43 @@ def hostsOf (s : Objs) : List String := (claims s).foldl (fun l c => insertSorte
 
 /-! ### listeners -/
 
-structure LClaim where
-  lk : String          -- "listener|host"
-  key : String
-  md : Meta
-  l : Listener
+/-- Claims of TCP/UDP TransportServers on (listener, host) pairs: a TransportServer claims
+`listener|host` iff the GlobalConfiguration defines a listener with its name and protocol.
+The enumeration order `tss` is irrelevant to the owner (theorem `lowner_order_free`). -/
+def lclaimsOf (gc : Option (List Listener)) (tss : List (String × TS)) : List Claim :=
+  tss.filterMap fun kv =>
+    let t := kv.2
+    if t.proto = "TLS_PASSTHROUGH" then none else
+    (listenerFor gc t).map fun l => ⟨lkey l.name t.host, tsKey t, t.md⟩
 
-def lclaims (s : Objs) : List LClaim :=
-  match s.gc with
-  | none => []
-  | some ls =>
-    s.tss.filterMap fun kv =>
-      let t := kv.2
-      if t.proto = "TLS_PASSTHROUGH" then none else
-      (ls.find? (fun l => l.name = t.lname && l.proto = t.proto)).map fun l =>
-        ⟨lkey l.name t.host, "TransportServer/" ++ t.md.key, t.md, l⟩
+def lclaims (s : Objs) : List Claim := lclaimsOf s.gc s.tss
 
-def lchampion (cl : List LClaim) : Option LClaim :=
-  cl.find? fun c => cl.all fun c' => c'.md.uid = c.md.uid || beats c.md c'.md
+/-- **Owner of a (listener, host) pair** = the claimant that beats all other claimants of the pair. -/
+def lowner (s : Objs) (lk : String) : Option String :=
+  (champion ((lclaims s).filter (·.host = lk))).map (·.key)
 
-def lowner (s : Objs) (lk : String) : Option LClaim := lchampion ((lclaims s).filter (·.lk = lk))
+def lkeysOf (s : Objs) : List String := (lclaims s).foldl (fun l c => insertSorted c.host l) []
 
-def lkeysOf (s : Objs) : List String := (lclaims s).foldl (fun l c => insertSorted c.lk l) []
+/-- The listener an active TransportServer must be bound to. -/
+def bindingOf (s : Objs) (key : String) : Option Listener :=
+  (s.tss.find? fun kv => tsKey kv.2 = key).bind fun kv => listenerFor s.gc kv.2
+
+/-! ### listener admission -/
+
+def ip4 (l : Listener) : String := ipOr l.v4 "0.0.0.0"
+def ip6 (l : Listener) : String := ipOr l.v6 "::"
+
+/-- Two listeners cannot coexist: same port, conflicting protocols ({HTTP,TCP} mutually, UDP with UDP),
+and the same IPv4 or the same IPv6 address (defaults 0.0.0.0 / ::). -/
+def clash (a b : Listener) : Bool :=
+  a.port = b.port && conflicts b.proto a.proto && (ip4 a = ip4 b || ip6 a = ip6 b)
+
+/-- **Admission spec**: going through the entries in order, an entry is admitted iff it is valid on
+its own, no *admitted* earlier entry has its name, and it clashes with no *admitted* earlier entry.
+Entries that were dropped have no influence on later ones. -/
+def admitSpec (forb : List Nat) (ok4 ok6 : String → Bool) (ls : List Listener) : List Listener :=
+  ls.foldl (fun acc l =>
+    if selfOk forb ok4 ok6 l && acc.all (fun a => a.name ≠ l.name && !(clash a l)) then acc ++ [l] else acc) []
 
 /-! ### composition -/
 
@@ -111,7 +126,7 @@ def tsStatus (s : Objs) (t : TS) : String :=
     if !s.cfg.passthrough then "unknown" else
     if owner s t.host = some k then "active" else "host-taken"
   else
-    match s.gc.bind (fun ls => ls.find? (fun l => l.name = t.lname && l.proto = t.proto)) with
+    match listenerFor s.gc t with
     | none =>
       -- no such listener: unless another TransportServer holds (name, host), the listener "doesn't exist"
       match lowner s (lkey t.lname t.host) with
@@ -119,7 +134,7 @@ def tsStatus (s : Objs) (t : TS) : String :=
       | none => "listener-missing"
     | some l =>
       match lowner s (lkey l.name t.host) with
-      | some c => if c.key = k then "active" else "listener-taken"
+      | some c => if c = k then "active" else "listener-taken"
       | none => "listener-missing"
 
 def status (s : Objs) : List (String × String) :=
@@ -151,8 +166,8 @@ def b01 (b : Bool) : String := if b then "1" else "0"
 
 def render (s : Objs) : String :=
   let o := (hostsOf s).filterMap fun h => (owner s h).map fun k => h ++ "=" ++ k
-  let lo := (lkeysOf s).filterMap fun lk => (lowner s lk).map fun c =>
-    s!"{lk}={c.key}:{c.l.port}:{c.l.v4}:{c.l.v6}"
+  let lo := (lkeysOf s).filterMap fun lk => (lowner s lk).bind fun k =>
+    (bindingOf s k).map fun l => s!"{lk}={k}:{l.port}:{l.v4}:{l.v6}"
   let masters := s.ings.filterMap fun kv =>
     let i := kv.2
     let k := "Ingress/" ++ i.md.key
